@@ -14,6 +14,9 @@ int w_enum_ins(int null_diff, int kind, unsigned long ni, unsigned long nd, unsi
 int w_enum_rem(int null_diff, int kind, unsigned long ni, unsigned long nd, unsigned long nc);
 int w_harmful_enum(int null_diff, int kind, unsigned long ni, unsigned long nd, unsigned long nc, unsigned long fs, unsigned long ss);
 int w_static_dm(int null_diff, int decl_only, unsigned long nins, unsigned long ndel, int i0s, int i1s, int d0s, int d1s);
+int w_bases_d(int null_diff, int kind, unsigned long ndel, unsigned long nins);
+int w_dm_added_removed_d(int null_diff, int kind, int decl_only, unsigned long nins, unsigned long ndel, int i0s, int i1s, int d0s, int d1s);
+int w_static_dm_d(int null_diff, int kind, int decl_only, unsigned long nins, unsigned long ndel, int i0s, int i1s, int d0s, int d1s);
 #define POST(c) __CPROVER_assert(c, "postcondition: " #c)
 void h_parms(void)
 {
@@ -113,4 +116,31 @@ void h_static_dm(void)
   int stat = (in_ni >= 1 && s[0]) || (in_ni >= 2 && s[1]) || (in_nd >= 1 && s[2]) || (in_nd >= 2 && s[3]);
   POST((r != 0) == (!in_null && !in_do && stat));
   CANARY_h_static_dm;
+}
+/* The overloads categorize_harm{ful,less}_diff_node call: same verdict on a class diff, false on any other node. */
+void h_bases_d(void)
+{
+  int in_null = nondet_int() != 0, in_kind = nondet_int(); unsigned long in_ndel = nondet_ulong(), in_nins = nondet_ulong();
+  __CPROVER_assume(in_kind >= 0 && in_kind <= 5);
+  int r = w_bases_d(in_null, in_kind, in_ndel, in_nins);
+  POST((r != 0) == (!in_null && in_kind == 3 && (in_ndel > 0 || in_nins > 0)));
+  CANARY_h_bases_d;
+}
+void h_dm_added_removed_d(void)
+{
+  int in_null = nondet_int() != 0, in_kind = nondet_int(), in_do = nondet_int() != 0, s[4]; for (int i = 0; i < 4; ++i) s[i] = nondet_int() != 0;
+  unsigned long in_ni = nondet_ulong(), in_nd = nondet_ulong(); __CPROVER_assume(in_ni <= 2 && in_nd <= 2 && in_kind >= 0 && in_kind <= 5);
+  int r = w_dm_added_removed_d(in_null, in_kind, in_do, in_ni, in_nd, s[0], s[1], s[2], s[3]);
+  int nonstatic = (in_ni >= 1 && !s[0]) || (in_ni >= 2 && !s[1]) || (in_nd >= 1 && !s[2]) || (in_nd >= 2 && !s[3]);
+  POST((r != 0) == (!in_null && in_kind == 3 && !in_do && nonstatic));
+  CANARY_h_dm_added_removed_d;
+}
+void h_static_dm_d(void)
+{
+  int in_null = nondet_int() != 0, in_kind = nondet_int(), in_do = nondet_int() != 0, s[4]; for (int i = 0; i < 4; ++i) s[i] = nondet_int() != 0;
+  unsigned long in_ni = nondet_ulong(), in_nd = nondet_ulong(); __CPROVER_assume(in_ni <= 2 && in_nd <= 2 && in_kind >= 0 && in_kind <= 5);
+  int r = w_static_dm_d(in_null, in_kind, in_do, in_ni, in_nd, s[0], s[1], s[2], s[3]);
+  int stat = (in_ni >= 1 && s[0]) || (in_ni >= 2 && s[1]) || (in_nd >= 1 && s[2]) || (in_nd >= 2 && s[3]);
+  POST((r != 0) == (!in_null && in_kind == 3 && !in_do && stat));
+  CANARY_h_static_dm_d;
 }
